@@ -211,8 +211,11 @@ def finish(ctx, level, rule_text, explanation=None, trusted_base=None, exhaustiv
         "wall_s": round(time.time() - ctx.t0, 3),
         "violations": len(new),
     }
-    os.makedirs(os.path.join(V, "evidence"), exist_ok=True)
-    with open(os.path.join(V, "evidence", "%s.json" % ctx.prop), "w") as f:
+    # maintenance runs against a deliberately modified /repo (tools/regress.sh, try_mutant.sh, try_refactor.sh) must not
+    # overwrite the evidence of the real tree
+    evdir = os.path.join(V, ".cache", "scratch-evidence") if os.environ.get("VERIF_SCRATCH") else os.path.join(V, "evidence")
+    os.makedirs(evdir, exist_ok=True)
+    with open(os.path.join(evdir, "%s.json" % ctx.prop), "w") as f:
         json.dump(ev, f, indent=1, sort_keys=True)
     for f, k in seen_known:
         print("KNOWN-FINDING: property=%s %s [%s] %s" % (ctx.prop, k.get("what", f.what), f.key, f.where))
@@ -221,7 +224,7 @@ def finish(ctx, level, rule_text, explanation=None, trusted_base=None, exhaustiv
     print("%s: %d obligations, %d discharged, %d known finding(s), %d new violation(s) [%s, %.1fs]" %
           (ctx.prop, n_ob, n_dis, len(seen_known), len(new), ctx.tier, time.time() - ctx.t0))
     if new:
-        rd = os.path.join(V, "evidence", "replay")
+        rd = os.path.join(evdir, "replay")
         os.makedirs(rd, exist_ok=True)
         for i, f in enumerate(new):
             rp = os.path.join(rd, "%s-%d.json" % (ctx.prop, i))
